@@ -39,6 +39,7 @@ FIXED = [
  ("C17","panic","D25 destinations without a file name ('./', '/..', '/usr/..', './..') panicked in with_file","fix: destinations without a file name are rejected","replays/C17/D25-dest-dot-slash.json"),
  ("C17","unreadable-result","D28 destination with a trailing slash was archived under './a/' while the header recorded '/a' (archive name != header path)","fix: archive entry names are derived from the recorded directory","replays/C17/D28-trailing-slash-destination.json"),
  ("C17","panic","D26 out-of-range gzip/xz/bzip2 levels panicked inside the encoder constructors","fix: out-of-range gzip/xz/bzip2 compression levels","replays/C17/D26-compression-level-out-of-range.json"),
+ ("C12","escaped-target","D22 extract(): '..' in directory/base names escaped the target, earlier symlinks were followed, special file types hit unreachable!()","fix: extract() stays inside the target directory","replays/C12/D22a-dotdot-dirname.json"),
 ]
 exec(open(os.path.join(ROOT, "tools", "known_extra.py")).read())
 rows = []
